@@ -80,7 +80,7 @@ fn bvp<const N: usize>(seed: u64) {
 }
 
 // ---------------------------------------------------------------- (b) every ChallengeInput type binds its atoms
-fn is_response(path: &str) -> bool {
+pub fn is_response(path: &str) -> bool {
     path.contains("response_scalar")
 }
 
@@ -247,9 +247,10 @@ pub fn n_config_atoms(m: &merchant::Config, which: &str) -> usize {
 }
 
 fn report_unbound(proof: &str, what: &str, r: Tri, m: Option<std::collections::HashMap<String, String>>) {
+    let prop = eng::ctx(|c| c.prop.clone());
     if let Tri::Yes = r {
         eng::finding(
-            &format!("C12 unbound-atom {}.{}", proof, what),
+            &format!("{} unbound-atom {}.{}", prop, proof, what),
             &format!("{} can be altered without altering the challenge the merchant derives for the {}", what, proof),
             m,
             json!({"kind": "unbound-atom", "proof": proof, "atom": what}),
